@@ -39,6 +39,9 @@ FLAGS = [(False, False), (True, False), (False, True), (True, True)]
 
 def run(ctx):
     feat = C.draw_features(ctx)
+    if ctx.s("deep").draw(10) == 0:
+        feat["deep_types"] = True  # type chains of 9-12 levels (own stream: the other draws are unchanged)
+        ctx.probes["deep_type_chain"] += 1
     # disjunctive / universal preconditions: drawn by draw_features for every check; this check asks for them more often
     nested = ctx.s("cfg").draw(4)
     if nested == 0:
